@@ -11,7 +11,7 @@ The hand model (`Compute/Model/Special.lean`) has the closed forms after the (at
 step, `gammaFn`, `lnGammaFn`, `erfFn` (`Props/C09.lean` proves the fuelled transcriptions equal to them).  The
 theorems say: the closed form IS the regenerated step applied to the non-reflected branch (`gammaPos`,
 `lnGammaPos`, `erfPos`) and to the model of the loop (`lanczosSum`) — all by `rfl`: the condition (`z < 0.5`,
-`x >= 0.`), the reflection formulas, `t`, `half_pow` and both final products / sums are the source's own terms.
+`x.is_sign_positive()`), the reflection formulas, `t`, `half_pow` and both final products / sums are the source's own terms.
 What stays outside this tie: the loop itself (tied by the regenerated table `C09T.lanczos` + bit-exact runs)
 and `digamma` (see the note at the end).
 -/
@@ -20,7 +20,7 @@ namespace Cv.SrcTie.C09
 open Cv.Special
 
 variable {α : Type} [Add α] [Sub α] [Mul α] [Div α] [Neg α] [Zero α] [One α] [NatCast α] [IntCast α]
-  [LT α] [DecidableLT α] [LE α] [DecidableLE α] [BEq α] [Cv.Transc α] [Cv.OfLit α]
+  [LT α] [DecidableLT α] [LE α] [DecidableLE α] [BEq α] [Cv.Transc α] [Cv.OfLit α] [Cv.SignBit α]
 
 /-- `gamma(a) * gamma(b) / gamma(a + b)` is `betaFn`. -/
 theorem beta_eq : (Cv.Src.C09.beta : α → α → α) = betaFn := rfl
@@ -42,21 +42,21 @@ theorem lnGamma_else_eq (g : α → α) (z : α) (h : ¬ z < half) :
   unfold Cv.Src.C09.lnGammaStep
   exact if_neg h
 
-/-- `erf`: `if x >= 0. { let t = 1. / (1. + ERF_P * x); 1. - (Horner) * t * (-x * x).exp() } else { -erf(-x) }`
-with the recursive call answered by the non-negative branch is `erfFn`. -/
+/-- `erf` (since F56): `if x.is_sign_positive() { let t = 1. / (1. + ERF_P * x); 1. - (Horner) * t * (-x * x).exp() } else { -erf(-x) }`
+with the recursive call answered by the sign-positive branch is `erfFn` (`is_sign_positive` = `Cv.SignBit.isSignPositive`). -/
 theorem erf_eq : (Cv.Src.C09.erfStep erfPos : α → α) = erfFn := rfl
 
-/-- the non-negative branch alone (any `g`) is `erfPos`. -/
-theorem erf_then_eq (g : α → α) (x : α) (h : (0 : α) ≤ x) : Cv.Src.C09.erfStep g x = erfPos x := by
+/-- the sign-positive branch alone (any `g`) is `erfPos`. -/
+theorem erf_then_eq (g : α → α) (x : α) (h : Cv.SignBit.isSignPositive x = true) : Cv.Src.C09.erfStep g x = erfPos x := by
   unfold Cv.Src.C09.erfStep
   exact if_pos h
 
 /-- One fuelled step of the faithful recursive transcription `erfF` is the regenerated step. -/
 theorem erfF_step (n : Nat) (x : α) :
-    erfF (n + 1) x = if (0 : α) ≤ x then some (Cv.Src.C09.erfStep (fun _ => x) x)
+    erfF (n + 1) x = if Cv.SignBit.isSignPositive x = true then some (Cv.Src.C09.erfStep (fun _ => x) x)
       else (erfF n (-x)).map fun e => Cv.Src.C09.erfStep (fun _ => e) x := by
-  show (if (0 : α) ≤ x then some (erfPos x) else (erfF n (-x)).map fun e => -e) = _
-  by_cases h : (0 : α) ≤ x
+  show (if Cv.SignBit.isSignPositive x = true then some (erfPos x) else (erfF n (-x)).map fun e => -e) = _
+  by_cases h : Cv.SignBit.isSignPositive x = true
   · rw [if_pos h, if_pos h]; exact congrArg some (erf_then_eq _ x h).symm
   · rw [if_neg h, if_neg h]
     cases erfF n (-x) with
